@@ -87,6 +87,8 @@ def harness_jobs(lib, label, full, masked_only=False, thorough=False):
             for m in ("xof", "prf", "enc128", "dec128a", "enc80pq", "hkdf"):
                 jobs.append((c07, [m, 0], label + "+off%d" % off, env))
             jobs.append((c08, ["bytes", 0], label + "+off%d" % off, env))
+            for mode, a in (("pbkdf2", 0), ("hkdf", off & 1), ("kdf", 1 - (off & 1)), ("expand", off & 1)):
+                jobs.append((c05, [mode, a, 3, 0], label + "+off%d" % off, env))
     return jobs
 
 
